@@ -1,434 +1,948 @@
 """C17 - rename_symbols is a consistent renaming of the whole model.
 
-How the code is read.  ``HelicityModel.rename_symbols`` (with everything it calls: ``__collect_symbols``, the
-``expression`` property, private helpers, closures) is INTERPRETED (``sa/pyexec.py``; nothing of the package is
-imported or run by CPython) on a model ``HelicityModel`` whose fields hold model SymPy objects (``SymWorld``:
-interned symbols with assumptions, hash-consed expression nodes, structural simultaneous ``xreplace``, sequential
-``subs``), for a family of rename maps - injective, swap, chain, merge into an existing symbol, iterable of pairs,
-unknown name, empty.  Every field of the returned model is compared with the SPECIFICATION evaluated on the same
-world: the original field with the simultaneous symbol map {s -> Symbol(renames[s.name], **assumptions of s)}
-applied to keys and values.  How the method is spelled - one ``attrs.evolve`` call, a constructor call, keyword
-arguments collected in a ``dict`` and splatted, helper methods, loops, comprehensions - does not matter; a construct or
-an external callable without a model is a ``ModelError`` (exit 2), never a pass and never a violation.
+R-FIELDS   every field of HelicityModel (minus the exempt table) is rebuilt from the symbol
+           mapping in rename_symbols; keys and values are mapped where keys are symbols.
+R-ASSUME   the replacement symbol carries the assumptions of the symbol it replaces.
+R-SIMUL    the mapping is applied with a simultaneous primitive (xreplace), never sequential subs.
+R-UNIVERSE the symbol universe covers expression, kinematic-variable keys and their values.
+R-PURE     the original model and the caller's rename map are not mutated.
 
-R-FIELDS   every field of the renamed model (exempt: reaction_info) equals the original with the map applied.
-R-ASSUME   the replacement symbol carries the assumptions of the symbol it replaces and the requested name.
-R-SIMUL    the map is applied simultaneously (swap / chain maps); symbols that are not renamed stay the objects they were.
-R-UNIVERSE a symbol is renamed wherever it occurs: expression, kinematic-variable keys, their values, parameter keys.
-R-PURE     the original model and the caller's rename map are not modified; a non-empty map never returns the model itself.
+How the code is read.  The rules look at VALUES, not at spellings: every expression of
+rename_symbols is first put into closed form with ``CallInliner`` (locals with one definition are
+replaced by their definition; a call of a helper function / private method / nested closure is replaced
+by the expression it returns, with the arguments substituted; the loader's normal form has already
+turned accumulator loops into comprehensions).  ``{k: v.xreplace(m) for k, v in d.items()}`` is then the
+same value whether it is written in place, built by a loop into a temporary, or returned by
+``_rename_definitions(d, m)`` / produced through a closure ``rename(v)``.  The symbol universe is computed
+by a small abstract interpreter (``Universe``) that executes ``__collect_symbols`` and the helpers it
+calls on "which sources does this collection contain completely" - ``|=``, ``update``, ``add``, ``union``,
+set displays and comprehensions, full loops over a mapping's keys / values / items.
+
+A value that the closed form cannot express and whose shape is outside the grammar is an
+ANALYSIS-ERROR (never a pass); a value that is understood and wrong is a violation.
 """
 
 from __future__ import annotations
 
 import ast
 
-from ..loader import AnalysisError, FuncInfo, Tree, unparse
-from ..pyexec import ClassObj, Instance, MObj, ModelError, ModelRaise, PyExec, SymWorld
+from ..canon import emptiness_fact, normal_test
+from ..dataflow import MUTATORS, RD
+from ..inline import CallInliner
+from ..loader import AnalysisError, FuncInfo, Tree, ancestors, unparse, walk_function
+from ..paths import PathWalker, atomic_tests
 from ..report import Check
 
 PID = "C17"
 MODEL = "ampform.helicity::HelicityModel"
-PARAMETER_VALUES = "ampform.helicity::ParameterValues"
 EXEMPT = {"reaction_info": "holds no SymPy symbols (qrules ReactionInfo, the immutable input)"}
-MUTATING = {"__setitem__", "__delitem__", "update", "clear", "pop", "popitem", "setdefault", "__ior__"}
+SYMBOL_KEYED = {"parameter_defaults", "kinematic_variables"}
+# values that are not expressions (numbers): passed on as they are
+PLAIN_VALUES = {"parameter_defaults"}
+REQUIRED_SOURCES = {
+    "expression free symbols": "free:expression",
+    "kinematic-variable keys": "keys:kinematic_variables",
+    "kinematic-variable values' free symbols": "free:values:kinematic_variables",
+    # a parameter that does not occur in the expression (the mass of a stable final state, a scalar
+    # initial-state mass) is still an attribute of the model: "every attribute equals the original with the map applied"
+    "parameter keys": "keys:parameter_defaults",
+}
+MAPPING_CONSTRUCTORS = {"dict", "OrderedDict", "collections.OrderedDict", "ParameterValues"}
+SEQUENCE_WRAPPERS = {"list", "tuple"}
 
 
-class Tracked(dict):
-    """A dictionary of the ORIGINAL model / the caller: records every mutating operation executed on it."""
-
-    def __init__(self, *a, **k) -> None:
-        super().__init__(*a, **k)
-        self.mutations: list[str] = []
-
-
-def _tracking(name: str):
-    def method(self, *a, **k):
-        self.mutations.append(name)
-        return getattr(dict, name)(self, *a, **k)
-
-    return method
+# --------------------------------------------------------------------------- small AST predicates
+def strip(e: ast.AST) -> ast.AST:
+    """The expression without wrappers that do not change its value (walrus, typing.cast)."""
+    while True:
+        if isinstance(e, ast.NamedExpr):
+            e = e.value
+        elif isinstance(e, ast.Call) and len(e.args) == 2 and not e.keywords and (call_name(e) or "").split(".")[-1] == "cast":
+            e = e.args[1]
+        else:
+            return e
 
 
-for _name in MUTATING:
-    setattr(Tracked, _name, _tracking(_name))
+def same(a: ast.AST, b: ast.AST) -> bool:
+    """Structural equality of two expressions (a comprehension target and its use compare equal)."""
+    a, b = strip(a), strip(b)
+    if isinstance(a, ast.Name) and isinstance(b, ast.Name):
+        return a.id == b.id
+    if type(a) is not type(b):
+        return False
+    for (fa, va), (_, vb) in zip(ast.iter_fields(a), ast.iter_fields(b)):
+        if fa == "ctx":
+            continue
+        if isinstance(va, ast.AST) and isinstance(vb, ast.AST):
+            if not same(va, vb):
+                return False
+        elif isinstance(va, list) and isinstance(vb, list):
+            if len(va) != len(vb) or not all(same(x, y) if isinstance(x, ast.AST) else x == y for x, y in zip(va, vb)):
+                return False
+        elif va != vb:
+            return False
+    return True
 
 
-# --------------------------------------------------------------------------- the model
-class ModelWorld:
-    def __init__(self, tree: Tree) -> None:
-        self.tree = tree
-        self.cls = tree.cls(MODEL)
-        self.ex = PyExec(tree)
-        self.w = SymWorld(self.ex)
-        self.fields = {st.target.id: st for st in self.cls.node.body if isinstance(st, ast.AnnAssign) and isinstance(st.target, ast.Name)}
-        if len(self.fields) < 6:
-            raise AnalysisError(f"HelicityModel has {len(self.fields)} fields (6 confirmed)")
-        self.class_obj = ClassObj(self.cls, {"__call__": self.construct})
-        self.ex.class_refs[MODEL] = self.class_obj
-        self.ex.externals.update(self.w.externals())
-        evolve = lambda a, k: self.evolve(a[0], k)  # noqa: E731
-        self.ex.externals.update({
-            MODEL: self.class_obj, "attrs.evolve": evolve, "attr.evolve": evolve, "dataclasses.replace": evolve,
-            "attrs.asdict": self.asdict, "attr.asdict": self.asdict,
-            "sympy.postorder_traversal": lambda a, k: self.postorder(a[0]),
-            "sympy.preorder_traversal": lambda a, k: list(reversed(self.postorder(a[0]))),
-        })
-        pv = tree.classes.get(PARAMETER_VALUES)
-        if pv is not None:
-            self.pv_obj = ClassObj(pv, {"__call__": lambda a, k: self.new_object(pv, a, k)})
-            self.ex.class_refs[PARAMETER_VALUES] = self.pv_obj
-            self.ex.externals[PARAMETER_VALUES] = self.pv_obj
-        self.build()
+def names_in(e: ast.AST) -> set[str]:
+    return {n.id for n in ast.walk(e) if isinstance(n, ast.Name)}
 
-    def postorder(self, e) -> list:
-        out = []
-        for c in self.w.children(e):
-            out += self.postorder(c)
-        if isinstance(e, MObj):
-            out.append(e)
-        return out
 
-    def new_object(self, cls, args, kwargs) -> Instance:
-        """An instance of a plain repository class: ``__init__`` is interpreted."""
-        obj = Instance(f"{cls.name} object", cls, kinds={c.qual for c in self.tree.mro(cls)} | set(self.tree.external_bases(cls)) | {"collections.abc.Mapping"})
-        init = self.tree.lookup_method(cls, "__init__")
-        if init is not None:
-            self.ex.call_function(init, [obj, *args], kwargs)
-        return obj
+def is_self_field(e: ast.AST, f: str | None = None) -> str | None:
+    """``self.<f>`` -> f"""
+    e = strip(e)
+    if isinstance(e, ast.Attribute) and isinstance(e.value, ast.Name) and e.value.id == "self" and (f is None or e.attr == f):
+        return e.attr
+    return None
 
-    # ---- the model object
-    def build(self) -> None:
-        w = self.w
-        S = w.symbol  # noqa: N806
-        self.sym = {
-            "coupling": S("C_1"), "width": S("Gamma", positive=True), "kv_value_only": S("m_kv"), "parameter_only": S("m_stable", real=True),
-            "kv_key_in_expression": S("theta", real=True), "kv_key_only": S("phi_only"), "momentum": S("p1"), "untouched": S("untouched", integer=True),
-            "existing": S("b_existing"), "dummy": w.dummy("xi", real=True),
-        }
-        s = self.sym
-        a1, a2, a3 = w.node("Indexed", w.value("A1")), w.node("Indexed", w.value("A2")), w.node("Indexed", w.value("A3"))
-        self.original = {
-            "intensity": w.node("I", s["coupling"], s["untouched"], s["existing"], s["dummy"], a1, a2, a3),
-            # (A3 is a vanishing amplitude: its definition is a constant)
-            "amplitudes": {a1: w.node("Amp1", s["width"], s["kv_key_in_expression"], s["coupling"]), a2: w.node("Amp2", s["kv_key_in_expression"], s["existing"]), a3: w.value("0")},
-            "parameter_defaults": {s["coupling"]: 1.0, s["width"]: 0.5, s["parameter_only"]: 0.14, s["existing"]: 2.0},
-            "kinematic_variables": {s["kv_key_in_expression"]: w.node("KV1", s["kv_value_only"], s["momentum"]), s["kv_key_only"]: w.node("KV2", s["momentum"])},
-            "components": {"I_{1}": w.node("Comp1", s["coupling"], s["width"]), "A_{2}": w.node("Comp2", s["kv_key_in_expression"], s["untouched"]), "I_{0}": w.value("0")},
-            "reaction_info": MObj("reaction_info", kinds={"qrules.ReactionInfo", "qrules.transition.ReactionInfo"}, open=False),
-        }
-        for f, st in self.fields.items():
-            if f in self.original:
-                continue
-            ann = unparse(st.annotation)
-            if any(k in ann for k in ("dict", "Dict", "Mapping")):
-                # an unknown mapping field is taken to hold symbols and expressions (the demanding case)
-                self.original[f] = {s["coupling"]: w.node(f"Extra_{f}", s["width"], s["existing"])}
-            elif any(k in ann for k in ("Expr", "Basic", "Symbol")):
-                self.original[f] = w.node(f"Extra_{f}", s["coupling"])
+
+def call_name(e: ast.AST) -> str | None:
+    if isinstance(e, ast.Call):
+        try:
+            return unparse(e.func)
+        except Exception:  # noqa: BLE001
+            return None
+    return None
+
+
+class Shapes:
+    """Recognisers for "x with the mapping applied", relative to the name of the symbol mapping."""
+
+    def __init__(self, mapping_name: str) -> None:
+        self.m = mapping_name
+
+    def is_mapping(self, e: ast.AST) -> bool:
+        e = strip(e)
+        while isinstance(e, ast.Call) and len(e.args) == 1 and not e.keywords and (call_name(e) or "").split(".")[-1] in {"dict", "OrderedDict"}:
+            e = strip(e.args[0])  # a copy of the mapping maps the same
+        return isinstance(e, ast.Name) and e.id == self.m
+
+    def applied(self, e: ast.AST, is_operand) -> str | None:
+        """'ren' if e is <operand> with the mapping applied simultaneously, 'seq' if applied with a
+        sequential primitive, None otherwise."""
+        e = strip(e)
+        if not (isinstance(e, ast.Call) and isinstance(e.func, ast.Attribute) and e.func.attr in {"xreplace", "subs", "replace"}):
+            return None
+        if not is_operand(e.func.value) or not e.args or not self.is_mapping(e.args[0]):
+            return None
+        if e.func.attr == "xreplace":
+            return "ren" if len(e.args) == 1 and not e.keywords else None
+        simultaneous = any(k.arg == "simultaneous" and isinstance(k.value, ast.Constant) and k.value.value is True for k in e.keywords)
+        return "ren" if simultaneous and e.func.attr == "subs" else "seq"
+
+    def key_applied(self, e: ast.AST, is_operand) -> str | None:
+        """A symbol (dictionary key) sent through the mapping: ``m.get(k, k)``, ``m[k] if k in m else k``,
+        ``k.xreplace(m)``."""
+        e = strip(e)
+        if isinstance(e, ast.Call) and isinstance(e.func, ast.Attribute) and e.func.attr == "get" and self.is_mapping(e.func.value):
+            args = [*e.args, *[k.value for k in e.keywords if k.arg == "default"]]
+            if len(args) == 2 and is_operand(args[0]) and is_operand(args[1]):
+                return "ren"
+            return None
+        if isinstance(e, ast.IfExp):
+            test, positive = normal_test(e.test, True)
+            hit, miss = (e.body, e.orelse) if positive else (e.orelse, e.body)
+            if (isinstance(test, ast.Compare) and len(test.ops) == 1 and isinstance(test.ops[0], ast.In) and is_operand(test.left) and self.is_mapping(test.comparators[0])
+                    and isinstance(strip(hit), ast.Subscript) and self.is_mapping(strip(hit).value) and is_operand(strip(hit).slice) and is_operand(miss)):
+                return "ren"
+            return None
+        return self.applied(e, is_operand)
+
+
+# --------------------------------------------------------------------------- R-FIELDS: one field value
+def as_dict_comprehension(tree: Tree, e: ast.AST):
+    """(key, value, generators) of a dictionary built element by element from an iteration."""
+    e = strip(e)
+    if isinstance(e, ast.DictComp):
+        return e.key, e.value, e.generators
+    if isinstance(e, ast.Call) and len(e.args) == 1 and not e.keywords and (call_name(e) or "").split(".")[-1] in {c.split(".")[-1] for c in MAPPING_CONSTRUCTORS}:
+        inner = strip(e.args[0])
+        if isinstance(inner, (ast.ListComp, ast.GeneratorExp)) and isinstance(inner.elt, ast.Tuple) and len(inner.elt.elts) == 2:
+            return inner.elt.elts[0], inner.elt.elts[1], inner.generators
+        return as_dict_comprehension(tree, inner)
+    return None
+
+
+def iteration_source(gen: ast.comprehension):
+    """(field, key-recogniser, value-recogniser) of a generator that walks all entries of ``self.<field>``."""
+    it = strip(gen.iter)
+    while isinstance(it, ast.Call) and isinstance(it.func, ast.Name) and it.func.id in SEQUENCE_WRAPPERS and len(it.args) == 1 and not it.keywords:
+        it = strip(it.args[0])
+    tgt = gen.target
+    if isinstance(it, ast.Call) and isinstance(it.func, ast.Attribute) and not it.args and not it.keywords:
+        f = is_self_field(it.func.value)
+        if f and it.func.attr == "items" and isinstance(tgt, ast.Tuple) and len(tgt.elts) == 2 and all(isinstance(t, ast.Name) for t in tgt.elts):
+            k, v = tgt.elts
+            return f, (lambda e: same(e, k)), (lambda e: same(e, v))
+        if f and it.func.attr == "keys":
+            it = it.func.value
+    f = is_self_field(it)
+    if f and isinstance(tgt, ast.Name):
+        def is_value(e, f=f, tgt=tgt):
+            e = strip(e)
+            return isinstance(e, ast.Subscript) and is_self_field(e.value, f) is not None and same(e.slice, tgt)
+
+        return f, (lambda e: same(e, tgt)), is_value
+    return None
+
+
+def field_problems(tree: Tree, sh: Shapes, f: str, is_mapping_field: bool, val: ast.AST) -> tuple[list[str], list[str]]:
+    """(what is wrong with the value rename_symbols gives to field f, what could not be interpreted)."""
+    val = strip(val)
+    if isinstance(val, ast.IfExp):
+        cond = unparse(val.test)[:60]
+        p1, u1 = field_problems(tree, sh, f, is_mapping_field, val.body)
+        p2, u2 = field_problems(tree, sh, f, is_mapping_field, val.orelse)
+        return [f"when `{cond}`: {p}" for p in p1] + [f"unless `{cond}`: {p}" for p in p2], u1 + u2
+    if isinstance(val, ast.Name):
+        return [], [f"HelicityModel.{f}: `{val.id}` has no single defining expression (filled by statements)"]
+    depends = sh.m in names_in(val)
+    if not is_mapping_field:
+        how = sh.applied(val, lambda e: is_self_field(e, f) is not None)
+        if how == "ren":
+            return [], []
+        if how == "seq":
+            return [f"`{unparse(val)[:50]}` is a sequential substitution: a chain a->b, b->c renames a to c"], []
+        if not depends:
+            return ["value does not depend on the symbol mapping" + (f" (self.{f} is passed on unchanged)" if is_self_field(val, f) else "")], []
+        other = sh.applied(val, lambda e: True)
+        if other is not None:
+            return [f"built from `{unparse(val.func.value)[:40]}`, not from self.{f}"], []
+        return [], [f"HelicityModel.{f}: cannot interpret `{unparse(val)[:80]}`"]
+    comp = as_dict_comprehension(tree, val)
+    if comp is None:
+        if not depends:
+            return ["value does not depend on the symbol mapping" + (f" (self.{f} is passed on unchanged)" if is_self_field(val, f) else "")], []
+        return [], [f"HelicityModel.{f}: `{unparse(val)[:80]}` is not a dictionary built entry by entry"]
+    key, value, gens = comp
+    problems: list[str] = []
+    unknown: list[str] = []
+    if len(gens) != 1:
+        return [], [f"HelicityModel.{f}: nested comprehension"]
+    gen = gens[0]
+    src = iteration_source(gen)
+    if src is None:
+        return [], [f"HelicityModel.{f}: cannot interpret the iteration `for {unparse(gen.target)} in {unparse(gen.iter)[:60]}`"]
+    g, is_key, is_value = src
+    if g != f:
+        problems.append(f"built from `self.{g}`, not from self.{f}")
+    if gen.ifs:
+        problems.append(f"entries are filtered (`if {unparse(gen.ifs[0])[:50]}`): entries without that property are dropped from the renamed model")
+    # keys
+    if is_key(key):
+        if f in SYMBOL_KEYED:
+            problems.append("keys (symbols) are not mapped")
+    else:
+        how = sh.key_applied(key, is_key)
+        if how == "seq":
+            problems.append(f"keys: `{unparse(key)[:50]}` is a sequential substitution")
+        elif how is None:
+            if f in SYMBOL_KEYED and sh.m not in names_in(key):
+                problems.append("keys (symbols) are not mapped")
             else:
-                raise AnalysisError(f"HelicityModel.{f}: {ann} - no model value for a field of this type")
+                unknown.append(f"HelicityModel.{f}: cannot interpret the key `{unparse(key)[:60]}`")
+    # values
+    if is_value(value):
+        if f not in PLAIN_VALUES:
+            problems.append("values (expressions) are not mapped")
+    else:
+        how = sh.applied(value, is_value)
+        if how == "seq":
+            problems.append(f"`{unparse(value)[:50]}` is a sequential substitution: a chain a->b, b->c renames a to c")
+        elif how is None:
+            if f not in PLAIN_VALUES and sh.m not in names_in(value):
+                problems.append("values (expressions) are not mapped")
+            else:
+                unknown.append(f"HelicityModel.{f}: cannot interpret the value `{unparse(value)[:60]}`")
+    return problems, unknown
 
-    def instance(self, values: dict, label: str = "HelicityModel") -> Instance:
-        inst = Instance(label, self.cls, kinds={MODEL})
-        inst.attrs.update(values)
-        inst.attrs["__class__"] = self.class_obj
-        return inst
 
-    def fresh_original(self) -> Instance:
-        """The original model, built like a real one: through the constructor, i.e. with the field converters applied;
-        every dictionary it holds (also inside a ParameterValues object) then records mutating operations."""
-        model = self.construct([], {f: (dict(v) if isinstance(v, dict) else v) for f, v in self.original.items()})
-        model.label = "the original model"
-        for holder in self.holders(model):
-            for name, v in list(holder.attrs.items()):
-                if type(v) is dict:
-                    holder.attrs[name] = Tracked(v)
-        return model
+def residual_loop_problems(fn: FuncInfo, rd: RD, name: ast.Name) -> list[str]:
+    """A field value that stays a name after inlining is a container filled by statements the normal form
+    could not turn into a comprehension.  Decidable hazard: the filling loop skips entries."""
+    origin = getattr(name, "_origin", name)
+    out: set[str] = set()
+    for d in rd.closure(rd.reaching(origin)):
+        if d.name != name.id or d.kind not in {"store", "aug", "assign"}:
+            continue
+        loop = next((a for a in ancestors(d.node) if isinstance(a, (ast.For, ast.While))), None)
+        if loop is None:
+            continue
+        inside = list(walk_function(loop, nested=False))
+        skipping = [n for n in inside if isinstance(n, (ast.Continue, ast.Break))]
+        guards = [a for a in ancestors(d.node) if isinstance(a, ast.If) and any(a is x for x in inside)]
+        if skipping:
+            guard = next((a for a in ancestors(skipping[0]) if isinstance(a, ast.If) and any(a is x for x in inside)), None)
+            under = f" under `{unparse(guard.test)[:60]}`" if guard is not None else ""
+            out.add(f"the loop that fills `{name.id}` skips entries (`{type(skipping[0]).__name__.lower()}`{under}): entries are treated conditionally")
+        elif guards and not all(g.orelse for g in guards):
+            out.add(f"the loop that fills `{name.id}` stores an entry only `if {unparse(guards[0].test)[:60]}`: entries are treated conditionally")
+    return sorted(out)
 
-    def holders(self, model: Instance) -> list[Instance]:
-        """The model and the package objects it holds (ParameterValues)."""
-        return [model, *[v for v in model.attrs.values() if isinstance(v, Instance) and v.cls is not None and v.cls is not self.cls]]
 
-    def containers(self, model: Instance) -> dict[int, str]:
+# --------------------------------------------------------------------------- R-UNIVERSE: abstract collections
+U = ("unknown",)
+ELEMENT_KINDS = {"elem", "iterset", "pair"}
+
+
+class Universe:
+    """Abstract interpreter: which SOURCES does a collection contain completely?
+
+    Values: ("self",), ("field", f) = self.f, ("view", f, keys|values|items), ("set", {sources}) a collection
+    that contains every element of each source, ("elem", {sources}) one element while ALL elements of the sources
+    are being visited by full loops, ("iterset", {sources}) a set per iteration whose union over the full loops
+    is the sources, ("listof", {sources}) a complete sequence of such sets, ("pair", f) one item of self.f.items().
+    Sources are "keys:f", "values:f", "free:f" (= self.f.free_symbols), "free:values:f", "free:keys:f".
+    A loop is full when its iterable is understood and its body has no break / continue / return; an update
+    below an ``if`` is credited only if every branch makes it (branch environments are intersected).
+    Operations that may remove elements and expressions outside the grammar are recorded in ``events``."""
+
+    def __init__(self, tree: Tree, leaves: set[str] = frozenset()) -> None:
+        self.tree = tree
+        self.leaves = set(leaves) | {"expression"}  # attributes of self that are data, not computed collections
+        self.events: list[str] = []
+        self.depth = 0
+        self.followed: list[str] = []
+
+    # ---------------------------------------------------------------- helpers
+    def property_of(self, e: ast.Attribute) -> FuncInfo | None:
+        """``self.<attr>`` that is a property computing a collection (not one of the model's fields / `expression`)."""
+        if e.attr in self.leaves or getattr(e, "_module", None) is None:
+            return None
+        scope = self.tree.func_of(e)
+        cls = scope.cls if scope is not None else None
+        while scope is not None and cls is None:
+            scope = scope.outer
+            cls = scope.cls if scope is not None else None
+        m = self.tree.lookup_method(cls, e.attr) if cls is not None else None
+        if m is not None and any(unparse(d).split(".")[-1] in {"property", "cached_property"} for d in m.node.decorator_list):
+            return m
+        return None
+
+    def note(self, what: str, node: ast.AST | None = None) -> None:
+        text = what + (f" `{unparse(node)[:70]}`" if node is not None else "")
+        if text not in self.events:
+            self.events.append(text)
+
+    @staticmethod
+    def sources(v) -> frozenset | None:
+        """Sources credited when the value is united into an accumulator (None: not a collection we understand)."""
+        if v[0] in {"set", "iterset", "listof"}:
+            return v[1]
+        if v[0] == "field":
+            return frozenset({f"keys:{v[1]}"})
+        if v[0] == "view" and v[2] in {"keys", "values"}:
+            return frozenset({f"{v[2]}:{v[1]}"})
+        return None
+
+    def unite(self, parts: list, node: ast.AST) -> tuple:
+        """Value of a union expression (not yet assigned to anything)."""
+        got: set[str] = set()
+        per_iteration = False
+        for p in parts:
+            s = self.sources(p)
+            if s is None:
+                self.note("cannot interpret an operand of the union", node)
+                continue
+            per_iteration |= p[0] == "iterset"
+            got |= s
+        return ("iterset" if per_iteration else "set", frozenset(got))
+
+    @staticmethod
+    def join(a, b):
+        if a == b:
+            return a
+        if a[0] == "set" and b[0] == "set":
+            return ("set", a[1] & b[1])
+        return U
+
+    def join_envs(self, envs: list[dict]) -> dict:
+        if not envs:
+            return {}
         out = {}
-        for holder in self.holders(model):
-            for name, v in holder.attrs.items():
-                if isinstance(v, (dict, list, set)):
-                    out[id(v)] = name if holder is model else f"{holder.label}.{name}"
+        for k in set().union(*envs):
+            vals = [e.get(k, U) for e in envs]
+            v = vals[0]
+            for w in vals[1:]:
+                v = self.join(v, w)
+            out[k] = v
         return out
 
-    def converted(self, values: dict) -> dict:
-        """attrs runs the converter of every field when an instance is made."""
-        out = dict(values)
-        scope = PyExec.module_scope(self.cls.module)
-        for f, st in self.fields.items():
-            if f not in out or not isinstance(st.value, ast.Call):
-                continue
-            conv = next((k.value for k in st.value.keywords if k.arg == "converter"), None)
-            if conv is None:
-                continue
-            target = self.tree.resolve(self.cls.module, conv)
-            fn = self.tree.funcs.get(target or "")
-            callee = fn if fn is not None else self.ex.ev(conv, {}, scope, 0)
-            try:
-                out[f] = self.ex.apply(callee, [out[f]], {}) if fn is None else self.ex.call_function(fn, [out[f]], {})
-            except ModelRaise as exc:
-                raise ModelRaise(exc.kind, f"the converter of HelicityModel.{f} ({unparse(conv)}) rejects the value {self.text(out[f])[:80]}: {exc}") from None
-        return out
+    # ---------------------------------------------------------------- expressions
+    def bind(self, target: ast.AST, it, env: dict) -> None:
+        names = [n.id for n in ast.walk(target) if isinstance(n, ast.Name)]
+        for n in names:
+            env[n] = U
+        if it[0] == "view" and it[2] == "items":
+            if isinstance(target, ast.Tuple) and len(target.elts) == 2 and all(isinstance(t, ast.Name) for t in target.elts):
+                env[target.elts[0].id] = ("elem", frozenset({f"keys:{it[1]}"}))
+                env[target.elts[1].id] = ("elem", frozenset({f"values:{it[1]}"}))
+            elif isinstance(target, ast.Name):
+                env[target.id] = ("pair", it[1])
+            return
+        if not isinstance(target, ast.Name):
+            return
+        if it[0] == "listof":
+            env[target.id] = ("iterset", it[1])
+            return
+        s = self.sources(it)
+        if s is not None:
+            env[target.id] = ("elem", s)
 
-    def asdict(self, a, k) -> dict:
-        if k.get("recurse", True) is not False:
-            raise ModelError("attrs.asdict(recurse=True) of the model has no model")
-        if not (isinstance(a[0], Instance) and a[0].cls is self.cls):
-            raise ModelRaise("TypeError", "attrs.asdict of something that is not the model")
-        return {f: a[0].attrs[f] for f in self.fields}
+    def iterable_understood(self, it) -> bool:
+        return it[0] in {"view", "field", "set", "iterset", "listof"}
 
-    def evolve(self, base, changes: dict) -> Instance:
-        if not (isinstance(base, Instance) and base.cls is self.cls):
-            raise ModelRaise("TypeError", "attrs.evolve of something that is not the model")
-        unknown = set(changes) - set(self.fields)
-        if unknown:
-            raise ModelRaise("TypeError", f"unexpected keyword arguments {sorted(unknown)}")
-        new = self.instance(self.converted({**{f: base.attrs[f] for f in self.fields}, **changes}), "a rebuilt model")
-        new.evolved_from = base  # type: ignore[attr-defined]
-        return new
+    def ev(self, e: ast.AST, env: dict):
+        e = strip(e) if not isinstance(e, ast.NamedExpr) else e
+        if isinstance(e, ast.NamedExpr):
+            v = self.ev(e.value, env)
+            if isinstance(e.target, ast.Name):
+                env[e.target.id] = v
+            return v
+        if isinstance(e, ast.Name):
+            return env.get(e.id, U)
+        if isinstance(e, ast.Attribute):
+            base = self.ev(e.value, env)
+            if base[0] == "self":
+                prop = self.property_of(e)
+                if prop is not None and self.depth < 4:
+                    return self.run_function(prop, {prop.params[0]: ("self",)} if prop.params else {})
+                return ("field", e.attr)
+            if e.attr == "free_symbols":
+                if base[0] == "field":
+                    return ("set", frozenset({f"free:{base[1]}"}))
+                if base[0] == "elem":
+                    return ("iterset", frozenset(f"free:{s}" for s in base[1]))
+            return U
+        if isinstance(e, ast.Subscript):
+            base = self.ev(e.value, env)
+            if base[0] == "pair" and isinstance(e.slice, ast.Constant) and e.slice.value in (0, 1):
+                return ("elem", frozenset({f"{'keys' if e.slice.value == 0 else 'values'}:{base[1]}"}))
+            if base[0] == "field":
+                k = self.ev(e.slice, env)
+                if k == ("elem", frozenset({f"keys:{base[1]}"})):
+                    return ("elem", frozenset({f"values:{base[1]}"}))
+            return U
+        if isinstance(e, ast.BinOp) and isinstance(e.op, (ast.BitOr, ast.Add)):
+            return self.unite([self.ev(e.left, env), self.ev(e.right, env)], e)
+        if isinstance(e, ast.IfExp):
+            return self.join(self.ev(e.body, dict(env)), self.ev(e.orelse, dict(env)))
+        if isinstance(e, (ast.Set, ast.List, ast.Tuple)):
+            got: set[str] = set()
+            per_iteration = False
+            for x in e.elts:
+                if isinstance(x, ast.Starred):
+                    v = self.ev(x.value, env)
+                    s = self.sources(v)
+                    if s is None:
+                        self.note("cannot interpret a starred element", x)
+                    else:
+                        got |= s
+                        per_iteration |= v[0] == "iterset"
+                else:
+                    v = self.ev(x, env)
+                    if v[0] == "elem":
+                        got |= v[1]
+                        per_iteration = True
+            return ("iterset" if per_iteration else "set", frozenset(got))
+        if isinstance(e, (ast.SetComp, ast.ListComp, ast.GeneratorExp)):
+            return self.comprehension(e, env)
+        if isinstance(e, ast.Call):
+            return self.call(e, env)
+        return U
 
-    def construct(self, args, kwargs) -> Instance:
-        names = list(self.fields)
-        if len(args) > len(names):
-            raise ModelRaise("TypeError", "too many positional arguments")
-        values = dict(zip(names, args))
-        for k, v in kwargs.items():
-            if k not in self.fields or k in values:
-                raise ModelRaise("TypeError", f"unexpected / repeated keyword argument {k}")
-            values[k] = v
-        for f, st in self.fields.items():
-            if f in values:
-                continue
-            default = None
-            if isinstance(st.value, ast.Call):
-                for k in st.value.keywords:
-                    if k.arg == "factory" and unparse(k.value) in {"dict", "list", "set", "tuple"}:
-                        default = {"dict": dict, "list": list, "set": set, "tuple": tuple}[unparse(k.value)]()
-                    elif k.arg == "default" and isinstance(k.value, ast.Constant):
-                        default = k.value.value
-                if not any(k.arg in {"factory", "default"} for k in st.value.keywords):
-                    raise ModelRaise("TypeError", f"missing argument {f}")
-            elif st.value is None:
-                raise ModelRaise("TypeError", f"missing argument {f}")
-            values[f] = default
-        return self.instance(self.converted(values), "a rebuilt model")
+    def comprehension(self, e, env: dict):
+        inner = dict(env)
+        full = True
+        for gen in e.generators:
+            it = self.ev(gen.iter, inner)
+            if not self.iterable_understood(it):
+                full = False
+                it = U
+            self.bind(gen.target, it, inner)
+            if gen.ifs:
+                full = False
+        v = self.ev(e.elt, inner)
+        if not full:
+            return ("set", frozenset())  # a filtered / partial collection: contains nothing completely
+        if v[0] == "elem":
+            return ("set", v[1])
+        if v[0] == "iterset":
+            return ("listof", v[1])
+        return ("set", frozenset())
 
-    # ---- specification
-    def sigma(self, renames: dict) -> dict:
-        return {s: self.w.symbol(renames[s.attrs["name"]], **s.sym_assumptions) for s in self.sym.values() if s.attrs["name"] in renames}
+    def call(self, e: ast.Call, env: dict):
+        f = e.func
+        if isinstance(f, ast.Name) and f.id in {"set", "frozenset", "list", "tuple", "sorted", "reversed", "iter"} and f.id not in env:
+            if not e.args:
+                return ("set", frozenset())
+            v = self.ev(e.args[0], env)
+            if v[0] in {"set", "iterset", "listof"}:
+                return v
+            s = self.sources(v)
+            return ("set", s) if s is not None else U
+        if isinstance(f, ast.Attribute):
+            if f.attr in {"keys", "values", "items"} and not e.args:
+                base = self.ev(f.value, env)
+                return ("view", base[1], f.attr) if base[0] == "field" else U
+            if f.attr == "union":
+                parts = []
+                if not (isinstance(f.value, ast.Name) and f.value.id in {"set", "frozenset"} and f.value.id not in env):
+                    parts.append(self.ev(f.value, env))
+                for a in e.args:
+                    parts.append(self.ev(a.value if isinstance(a, ast.Starred) else a, env))
+                return self.unite(parts, e)
+            if f.attr == "copy" and not e.args:
+                return self.ev(f.value, env)
+            if f.attr in {"difference", "intersection", "symmetric_difference"}:
+                self.note("elements may be removed by", e)
+                return U
+        # a function of the package: execute it abstractly
+        scope = self.tree.func_of(e)
+        q = self.tree.callee(e, scope) if getattr(e, "_module", None) is not None else None
+        h = self.tree.funcs.get(q) if q else None
+        if h is not None and self.depth < 4:
+            bound = self.bind_call(e, h, env)
+            if bound is not None:
+                return self.run_function(h, bound)
+        return U
 
-    def as_mapping(self, v):
-        """The items of a mapping value of the model world: a dict, or an object of a repository Mapping class."""
-        if isinstance(v, dict):
-            return dict(v)
-        if isinstance(v, Instance) and v.cls is not None and v.cls is not self.cls:
-            if self.tree.lookup_method(v.cls, "items") is not None:
-                return dict(self.ex.iterate(self.ex.call_method(v, "items")))
-            if self.tree.lookup_method(v.cls, "__getitem__") is not None:
-                return {k: self.ex.call_method(v, "__getitem__", [k]) for k in self.ex.iterate(v)}
-        return None
+    def bind_call(self, e: ast.Call, h: FuncInfo, env: dict) -> dict | None:
+        a = h.node.args
+        if a.vararg or a.kwarg or any(isinstance(x, ast.Starred) for x in e.args) or any(k.arg is None for k in e.keywords):
+            return None
+        params = [x.arg for x in [*a.posonlyargs, *a.args]]
+        static = any(unparse(d) == "staticmethod" for d in h.node.decorator_list)
+        bound: dict = {}
+        if h.cls is not None and h.outer is None and not static:
+            if not params or not isinstance(e.func, ast.Attribute):
+                return None
+            bound[params[0]] = self.ev(e.func.value, env)
+            params = params[1:]
+        if len(e.args) > len(params):
+            return None
+        for p, x in zip(params, e.args):
+            bound[p] = self.ev(x, env)
+        for k in e.keywords:
+            bound[k.arg] = self.ev(k.value, env)
+        for p in [*params, *[x.arg for x in a.kwonlyargs]]:
+            bound.setdefault(p, U)
+        if h.outer is not None:  # a closure reads the variables of the enclosing function
+            for k, v in env.items():
+                bound.setdefault(k, v)
+        return bound
 
-    def expected(self, f: str, sigma: dict):
-        v = self.original[f]
-        if isinstance(v, dict):
-            return [(sigma.get(k, k) if isinstance(k, MObj) else k, self.w.xreplace(x, sigma) if isinstance(x, MObj) else x) for k, x in v.items()]
-        if isinstance(v, MObj) and f not in EXEMPT:
-            return self.w.xreplace(v, sigma)
-        return v
+    def run_function(self, h: FuncInfo, env: dict):
+        self.depth += 1
+        self.followed.append(h.qual)
+        try:
+            rets: list = []
+            self.block(h.node.body, env, rets)
+            if not rets:
+                return U
+            v = rets[0]
+            for w in rets[1:]:
+                v = self.join(v, w)
+            return v
+        finally:
+            self.depth -= 1
 
-    def field_problem(self, f: str, got, sigma: dict) -> str | None:
-        want = self.expected(f, sigma)
-        if not isinstance(want, list):
-            return None if got is want else f"is {self.text(got)}, expected {self.text(want)}"
-        items = self.as_mapping(got)
-        if items is None:
-            return f"is {self.text(got)[:80]}, not a mapping"
-        want_keys = {k for k, _ in want}
-        if set(items) != want_keys:
-            missing, extra = want_keys - set(items), set(items) - want_keys
-            return "keys differ:" + (f" lacks {sorted(self.text(k) for k in missing)}" if missing else "") + (f" has {sorted(self.text(k) for k in extra)}" if extra else "")
-        for k in want_keys:
-            candidates = [x for kk, x in want if kk is k or kk == k]
-            if not any(items[k] is x or (not isinstance(x, MObj) and items[k] == x) for x in candidates):
-                return f"[{self.text(k)}] is {self.text(items[k])[:90]}, expected {self.text(candidates[-1])[:90]}"
-        return None
+    # ---------------------------------------------------------------- statements
+    def block(self, stmts: list[ast.stmt], env: dict, rets: list) -> bool:
+        """Execute; True if control cannot fall out of the end."""
+        for st in stmts:
+            if self.stmt(st, env, rets):
+                return True
+        return False
 
-    def text(self, x) -> str:
-        if isinstance(x, MObj):
-            return x.attrs["__str__"]([], {}) if "__str__" in x.attrs else x.label
-        if isinstance(x, dict):
-            return "{" + ", ".join(f"{self.text(k)}: {self.text(v)}" for k, v in x.items()) + "}"
-        return repr(x)
+    def accumulate(self, name: str, parts: list, env: dict, node: ast.AST) -> None:
+        old = env.get(name, U)
+        if old[0] not in {"set", "iterset"}:
+            s0 = self.sources(old)
+            if s0 is None:
+                self.note(f"`{name}` is not a collection the analysis understands in", node)
+                env[name] = U
+                return
+            old = ("set", s0)
+        got = set(old[1])
+        for p in parts:
+            s = self.sources(p)
+            if s is None:
+                self.note("cannot interpret what is added in", node)
+            else:
+                got |= s
+        env[name] = (old[0], frozenset(got))
 
-    def symbols_in(self, model: Instance) -> set:
-        out: set = set()
-        for f in self.fields:
-            v = model.attrs.get(f)
-            items = self.as_mapping(v) if not isinstance(v, MObj) or isinstance(v, Instance) and v.cls is not None else None
-            parts = [v] if items is None else [*items.keys(), *items.values()]
-            for p in parts:
-                if isinstance(p, MObj):
-                    out |= {x for x in self.w.subtree(p) if self.w.is_symbol(x)}
-        return out
+    def stmt(self, st: ast.stmt, env: dict, rets: list) -> bool:
+        if isinstance(st, ast.Return):
+            rets.append(self.ev(st.value, env) if st.value is not None else U)
+            return True
+        if isinstance(st, ast.Raise):
+            return True
+        if isinstance(st, (ast.Assign, ast.AnnAssign)):
+            if st.value is None:
+                return False
+            targets = st.targets if isinstance(st, ast.Assign) else [st.target]
+            # `acc = acc | x` / `acc = acc.union(x)` accumulate; everything else rebinds
+            t = targets[0]
+            v = strip(st.value)
+            if len(targets) == 1 and isinstance(t, ast.Name):
+                if isinstance(v, ast.BinOp) and isinstance(v.op, (ast.BitOr, ast.Add)) and any(isinstance(x, ast.Name) and x.id == t.id for x in (v.left, v.right)):
+                    other = v.right if isinstance(v.left, ast.Name) and v.left.id == t.id else v.left
+                    self.accumulate(t.id, [self.ev(other, env)], env, st)
+                    return False
+                if (isinstance(v, ast.Call) and isinstance(v.func, ast.Attribute) and v.func.attr == "union" and isinstance(v.func.value, ast.Name) and v.func.value.id == t.id):
+                    self.accumulate(t.id, [self.ev(a.value if isinstance(a, ast.Starred) else a, env) for a in v.args], env, st)
+                    return False
+            val = self.ev(st.value, env)
+            for t in targets:
+                if isinstance(t, ast.Name):
+                    env[t.id] = val
+                else:
+                    for n in ast.walk(t):
+                        if isinstance(n, ast.Name) and isinstance(n.ctx, ast.Store):
+                            env[n.id] = U
+            return False
+        if isinstance(st, ast.AugAssign):
+            if isinstance(st.target, ast.Name):
+                if isinstance(st.op, (ast.BitOr, ast.Add)):
+                    self.accumulate(st.target.id, [self.ev(st.value, env)], env, st)
+                else:
+                    if env.get(st.target.id, U)[0] in {"set", "iterset"}:
+                        self.note("elements may be removed by", st)
+                    env[st.target.id] = U
+            return False
+        if isinstance(st, ast.Expr):
+            c = st.value
+            if isinstance(c, ast.Call) and isinstance(c.func, ast.Attribute) and isinstance(c.func.value, ast.Name) and c.func.value.id in env:
+                name, attr = c.func.value.id, c.func.attr
+                if attr in {"update", "extend"}:
+                    self.accumulate(name, [self.ev(a.value if isinstance(a, ast.Starred) else a, env) for a in c.args], env, st)
+                elif attr in {"add", "append"} and len(c.args) == 1:
+                    v = self.ev(c.args[0], env)
+                    if v[0] == "elem":
+                        self.accumulate(name, [("iterset", v[1])], env, st)
+                elif attr in {"discard", "remove", "clear", "pop", "difference_update", "intersection_update", "symmetric_difference_update"}:
+                    if env[name][0] in {"set", "iterset"}:
+                        self.note("elements may be removed by", st)
+                    env[name] = U
+            else:
+                self.ev(c, dict(env))
+            return False
+        if isinstance(st, ast.If):
+            e1, e2 = dict(env), dict(env)
+            t1 = self.block(st.body, e1, rets)
+            t2 = self.block(st.orelse, e2, rets)
+            if t1 and t2:
+                return True
+            new = e2 if t1 else e1 if t2 else self.join_envs([e1, e2])
+            env.clear()
+            env.update(new)
+            return False
+        if isinstance(st, (ast.For, ast.While)):
+            before = dict(env)
+            body_env = dict(env)
+            exits = [n for n in walk_function(st, nested=False) if isinstance(n, (ast.Break, ast.Continue, ast.Return))]
+            if isinstance(st, ast.For):
+                it = self.ev(st.iter, env)
+                full = self.iterable_understood(it) and not exits
+                self.bind(st.target, it if full else U, body_env)
+            self.block(st.body, body_env, rets)
+            for k, after in body_env.items():
+                old = before.get(k)
+                if old is None:
+                    env[k] = U if after[0] in ELEMENT_KINDS or after[0] == "iterset" else after
+                elif after == old:
+                    env[k] = old
+                elif after[0] in ELEMENT_KINDS:
+                    env[k] = U
+                elif after[0] == "set" and old[0] == "set":
+                    env[k] = after if after[1] >= old[1] else ("set", after[1] & old[1])
+                else:
+                    env[k] = U
+            self.block(st.orelse, env, rets)
+            return False
+        if isinstance(st, ast.With):
+            return self.block(st.body, env, rets)
+        if isinstance(st, ast.Try):
+            envs = []
+            e0 = dict(env)
+            if not self.block([*st.body, *st.orelse], e0, rets):
+                envs.append(e0)
+            for h in st.handlers:
+                eh = dict(env)
+                if not self.block(h.body, eh, rets):
+                    envs.append(eh)
+            if not envs:
+                return True
+            new = self.join_envs(envs)
+            env.clear()
+            env.update(new)
+            return self.block(st.finalbody, env, rets)
+        return False
 
 
-SCENARIOS: list[tuple[str, object]] = [
-    ("injective map", {"C_1": "C_new", "Gamma": "Gamma_new", "m_kv": "m_kv_new", "m_stable": "m_stable_new", "theta": "theta_new", "phi_only": "phi_new"}),
-    ("swap", {"C_1": "b_existing", "b_existing": "C_1"}),
-    ("chain a->b, b->c", {"C_1": "b_existing", "b_existing": "c_final"}),
-    ("merge into an existing symbol", {"C_1": "b_existing"}),
-    ("iterable of pairs", [("Gamma", "Gamma_new"), ("theta", "theta_new")]),
-    ("unknown name", {"does_not_exist": "x"}),
-    ("empty map", {}),
-]
-SOURCE_OF = {"kv_value_only": "kinematic-variable values' free symbols", "kv_key_only": "kinematic-variable keys", "parameter_only": "parameter keys",
-             "coupling": "expression free symbols", "width": "expression free symbols", "kv_key_in_expression": "expression free symbols", "existing": "expression free symbols"}
+# --------------------------------------------------------------------------- the mapping under construction
+def check_sequential_mapping(ctx: Check, tree: Tree, fn, rd: RD) -> None:
+    """The mapping is built by a loop over the rename pairs instead of one comprehension.  The
+    grammar of the other rules does not cover that shape (the caller reports ANALYSIS-ERROR), but
+    one hazard is decidable: if the symbols a pair applies to are selected by the name of their
+    CURRENT TARGET (a value of the mapping under construction) instead of by their own name, the
+    pairs are applied one after the other - {a: b, b: c} sends a to c, a swap collapses into a merge."""
+    for st in walk_function(fn.node):
+        if not (isinstance(st, ast.Assign) and isinstance(st.targets[0], ast.Subscript) and isinstance(st.targets[0].value, ast.Name)):
+            continue
+        if not any(isinstance(c, ast.Call) and tree.callee(c, fn) == "sympy.Symbol" for c in ast.walk(st.value)):
+            continue
+        m = st.targets[0].value.id
+        key = st.targets[0].slice
+        sel = [key] + [d.value for d in rd.closure(rd.uses(key)) if isinstance(d.value, ast.AST)]
+        sel += [d.node.iter for d in rd.closure(rd.uses(key)) if d.kind == "for" and isinstance(d.node, ast.For)]
+        for e in sel:
+            for comp in [n for n in ast.walk(e) if isinstance(n, (ast.ListComp, ast.SetComp, ast.GeneratorExp, ast.DictComp))]:
+                for gen in comp.generators:
+                    it = gen.iter
+                    over_items = isinstance(it, ast.Call) and isinstance(it.func, ast.Attribute) and it.func.attr == "items" and isinstance(it.func.value, ast.Name) and it.func.value.id == m
+                    val_names = set()
+                    if over_items and isinstance(gen.target, ast.Tuple) and len(gen.target.elts) == 2 and isinstance(gen.target.elts[1], ast.Name):
+                        val_names.add(gen.target.elts[1].id)
+                    for cond in gen.ifs:
+                        reads_value = any(isinstance(n, ast.Name) and n.id in val_names for n in ast.walk(cond)) or any(
+                            isinstance(n, ast.Subscript) and isinstance(n.value, ast.Name) and n.value.id == m for n in ast.walk(cond))
+                        if reads_value:
+                            ctx.violation("R-SIMUL", f"{fn.qual}::pairs-applied-sequentially", tree.loc(cond),
+                                          f"rename_symbols: the symbols a rename pair applies to are selected with `{unparse(cond)}` - by the name of their current target in `{m}`, not by their own name",
+                                          "{a: b, b: c} then renames a to c; a swap {a: b, b: a} merges the two symbols: the map is not applied simultaneously")
 
 
-def run(ctx: Check, tree: Tree) -> None:  # noqa: C901, PLR0912, PLR0915
+def is_mapping_annotation(ann: ast.AST | None) -> bool:
+    text = unparse(ann) if ann is not None else ""
+    return any(w in text for w in ("Dict", "dict", "Mapping", "ParameterValues"))
+
+
+def helpers_of(tree: Tree, fn: FuncInfo) -> list[FuncInfo]:
+    """rename_symbols plus what it calls inside the package module (nested closures, methods reached through
+    self, module-level helpers), transitively - an extracted helper is part of the method."""
+    graph = tree.call_graph()
+    out = []
+    for q in sorted(tree.reachable(fn.qual, graph)):
+        g = tree.funcs.get(q)
+        if g is None or g.module is not fn.module:
+            continue
+        root = g
+        while root.outer is not None:
+            root = root.outer
+        if root.cls is not None and root.cls != fn.cls:
+            continue  # `self` of another class (a constructor that is called) is not the model
+        if g is fn or g.outer is not None or g.name.startswith("_"):
+            out.append(g)
+    return out
+
+
+def run(ctx: Check, tree: Tree) -> None:
     ctx.decided += [
-        "R-FIELDS: every HelicityModel field (exempt: reaction_info) of rename_symbols(map) equals the original field with the simultaneous symbol map applied to keys and values - decided by interpreting the method on a model for 7 kinds of rename maps",
-        "R-ASSUME: new symbols carry the assumptions of the replaced symbol and the requested name",
-        "R-SIMUL: swap and chain maps are applied simultaneously; symbols that are not renamed stay the objects they were",
-        "R-UNIVERSE: a symbol that occurs only in the kinematic-variable values, only as a kinematic-variable key or only as a parameter key is renamed, too",
-        "R-PURE: no mutating operation is executed on the original model's containers or on the caller's rename map; a non-empty map never returns the model itself",
+        "R-FIELDS: every HelicityModel field (exempt: reaction_info) is a keyword of the attrs.evolve call in rename_symbols and its value derives from the symbol mapping; symbol-keyed mappings map keys and values",
+        "R-ASSUME: new symbols are built with **s.assumptions0 of the replaced symbol",
+        "R-SIMUL: only xreplace (simultaneous) is used; unknown names map to themselves",
+        "R-UNIVERSE: __collect_symbols unions expression.free_symbols, kinematic-variable keys and the free symbols of their values",
+        "R-PURE: nothing in rename_symbols stores into self or mutates the caller's mapping",
     ]
     ctx.not_decided += ["numerical equivalence of the renamed model", "ParameterValues lookup semantics by name/index"]
-    ctx.assumptions += ["sympy xreplace is a simultaneous structural replacement, subs without simultaneous=True is sequential; attrs.evolve re-runs the field converters (not modelled: fields are compared before conversion)"]
+    ctx.assumptions += ["sympy xreplace is a simultaneous structural replacement; attrs.evolve re-runs the field converters"]
     cls = tree.cls(MODEL)
-    fn = tree.lookup_method(cls, "rename_symbols")
+    fn = cls.methods.get("rename_symbols")
     if fn is None:
         raise AnalysisError("vanished anchor: HelicityModel.rename_symbols")
     if len(fn.params) < 2:
         raise AnalysisError("rename_symbols: no parameter for the rename map")
-    world = ModelWorld(tree)
-    where = tree.loc(fn.node)
-    field_problems: dict[str, list[str]] = {f: [] for f in world.fields}
-    assume, newname, identity, sequential, universe, selfmut, inputmut, emptymap, unknown_fields, raised = [], [], [], [], [], [], [], [], [], []
-    empty_ok = False
-    for label, renames in SCENARIOS:
-        as_dict = dict(renames)
-        model = world.fresh_original()
-        before = {f: (dict(v) if isinstance(v, dict) else v) for f, v in model.attrs.items()}
-        own_containers = world.containers(model)
-        arg = Tracked(renames) if isinstance(renames, dict) else list(renames)
-        try:
-            got = world.ex.run(fn, [model, arg])
-        except ModelRaise as exc:
-            if exc.kind == "TypeError" and "unexpected keyword" in str(exc):
-                unknown_fields.append(f"{label}: {exc}")
-            else:
-                raised.append(f"{label}: rename_symbols raises {exc}")
-            continue
-        except ModelError as exc:
-            raise AnalysisError(f"rename_symbols ({label}): cannot interpret - {exc}") from exc
-        # ---- R-PURE
-        for holder in world.holders(model)[1:]:
-            for name, v in holder.attrs.items():
-                if isinstance(v, Tracked) and v.mutations:
-                    selfmut.append(f"{label}: {v.mutations[0]}(...) is executed on {holder.label}.{name} of the original model")
-        for f, v in model.attrs.items():
-            if isinstance(v, Tracked) and v.mutations:
-                selfmut.append(f"{label}: self.{f}.{v.mutations[0]}(...) is executed on the original model")
-            elif (dict(v) if isinstance(v, dict) else v) != before.get(f, v) or (not isinstance(v, dict) and v is not before.get(f, v)):
-                selfmut.append(f"{label}: self.{f} is re-bound / changed")
-        if set(model.attrs) != set(before):
-            selfmut.append(f"{label}: new attributes {sorted(set(model.attrs) - set(before))} on the original model")
-        if isinstance(arg, Tracked) and arg.mutations:
-            inputmut.append(f"{label}: the caller's map is modified ({arg.mutations[0]})")
-        if not (isinstance(got, Instance) and got.cls is world.cls):
-            raised.append(f"{label}: rename_symbols returns {world.text(got)[:60]}, not a HelicityModel")
-            continue
-        sigma = world.sigma(as_dict)
-        changes_something = any(s in sigma and sigma[s] is not s for s in world.sym.values())
-        if not as_dict:
-            empty_ok = got is model or all(world.field_problem(f, got.attrs.get(f), {}) is None for f in world.fields)
-        if got is model and changes_something:
-            emptymap.append(f"{label}: the model itself is returned although the map renames symbols of the model")
-            continue
-        base = getattr(got, "evolved_from", None)
-        if base is not None and base is not model:
-            field_problems.setdefault("reaction_info", []).append(f"{label}: the model is rebuilt from {world.text(base)}, not from self")
-        # ---- R-FIELDS
-        if got is not model:
-            for ident, name in world.containers(got).items():
-                if ident in own_containers:
-                    f = next((f for f in world.fields if f in name or f in own_containers[ident]), name)
-                    field_problems.setdefault(f, []).append(f"{label}: the renamed model shares the mutable container `{own_containers[ident]}` with the original: a later modification of one model changes the other")
-            for f in world.fields:
-                a, b = got.attrs.get(f), model.attrs.get(f)
-                if a is b and isinstance(a, Instance) and a.cls is not None and any(isinstance(x, (dict, list, set)) for x in a.attrs.values()):
-                    field_problems[f].append(f"{label}: the renamed model shares the mutable {a.cls.name} object of HelicityModel.{f} with the original")
-        for f in world.fields:
-            p = world.field_problem(f, got.attrs.get(f), sigma)
-            if p is not None:
-                field_problems[f].append(f"{label}: HelicityModel.{f} {p}")
-        # ---- symbol level diagnosis (which rule a deviation belongs to)
-        present = world.symbols_in(got)
-        by_name: dict[str, list] = {}
-        for s in present:
-            by_name.setdefault(s.attrs["name"], []).append(s)
-        legitimate = set(sigma.values()) | {s for s in world.sym.values() if s not in sigma or sigma[s] is s}
-        for role, s in world.sym.items():
-            name = s.attrs["name"]
-            if name not in as_dict or sigma[s] is s:
-                others = [x for x in by_name.get(name, []) if x is not s and x not in legitimate]
-                if others:
-                    identity.append(f"{label}: `{name}` is not renamed by the map but was replaced by another object (assumptions {others[0].sym_assumptions} instead of {s.sym_assumptions})")
+    renames = fn.params[1]
+    rd = RD(fn.node)
+    inl = CallInliner(tree, fn, rd)
+    fields = {st.target.id: st.annotation for st in cls.node.body if isinstance(st, ast.AnnAssign) and isinstance(st.target, ast.Name)}
+    if len(fields) < 6:
+        raise AnalysisError(f"HelicityModel has {len(fields)} fields (6 confirmed)")
+    def rebuilds(c: ast.Call) -> str | None:
+        q = tree.callee(c, fn)
+        if q in {"attrs.evolve", "attr.evolve", "dataclasses.replace"}:
+            return "evolve"
+        f = c.func
+        if (q == MODEL or (isinstance(f, ast.Call) and isinstance(f.func, ast.Name) and f.func.id == "type" and len(f.args) == 1 and unparse(f.args[0]) == "self")
+                or (isinstance(f, ast.Attribute) and f.attr == "__class__" and unparse(f.value) == "self")):
+            return "constructor"  # HelicityModel(...) / type(self)(...): every field is spelled out
+        return None
+
+    evolves = [c for c in walk_function(fn.node) if isinstance(c, ast.Call) and rebuilds(c)]
+    if len(evolves) != 1:
+        raise AnalysisError(f"rename_symbols: expected one attrs.evolve call (or one constructor call), found {len(evolves)}")
+    ev = evolves[0]
+    if any(isinstance(a, ast.Starred) for a in ev.args):
+        raise AnalysisError("rename_symbols: attrs.evolve(*args) - the rebuilt fields are not spelled as keywords")
+    kws = {k.arg: k.value for k in ev.keywords if k.arg}
+    if rebuilds(ev) == "evolve":
+        if not (ev.args and unparse(inl.expr(ev.args[0])) == "self"):
+            ctx.violation("R-FIELDS", f"{fn.qual}::evolve-base", tree.loc(ev), "attrs.evolve is not applied to self")
+    else:
+        kws.update(dict(zip(fields, ev.args)))
+
+    # the mapping variable: the local whose value (helpers followed) is a dict comprehension that creates sp.Symbol objects
+    def symbol_calls(e: ast.AST) -> list[ast.Call]:
+        """sp.Symbol(...) calls of the expression itself (not those of a comprehension / dictionary nested in it)."""
+        out, todo = [], [e]
+        while todo:
+            n = todo.pop(0)
+            if isinstance(n, (ast.DictComp, ast.ListComp, ast.SetComp, ast.GeneratorExp, ast.Dict, ast.Lambda)):
                 continue
-            target = as_dict[name]
-            if s not in sigma.values() and s in present:  # (in a swap the old symbol legitimately re-appears as an image)
-                orig = [f for f in world.fields if _occurs(world, world.original[f], s)]
-                still = [f for f in world.fields if _occurs(world, got.attrs.get(f), s)]
-                if still == orig:
-                    universe.append(f"{label}: `{name}` ({SOURCE_OF.get(role, role)}) is not renamed anywhere (occurs in {orig})")
-            wrong = [x for x in by_name.get(target, []) if x not in legitimate]
-            if wrong:
-                assume.append(f"{label}: `{name}` {s.sym_assumptions} becomes `{target}` with assumptions {wrong[0].sym_assumptions}")
-            if sigma[s] not in present and not wrong and s not in present:
-                later = as_dict.get(target)
-                if later is not None and later in by_name and target != later:
-                    sequential.append(f"{label}: `{name}` ends up as `{later}`: the pairs are applied one after the other")
-                else:
-                    newname.append(f"{label}: `{name}` should become `{target}`; symbols of the result: {sorted(by_name)}")
-    if raised:
-        ctx.violation("R-FIELDS", f"{fn.qual}::raises", where, f"rename_symbols does not return a renamed model for a rename map of the model's own symbols - {raised[0][:300]}", raised[:3])
-    ev_where = where
-    for f in world.fields:
-        key = f"{fn.qual}::field {f}"
-        if f in EXEMPT and not field_problems[f]:
-            ctx.ok("R-FIELDS", ev_where, f"HelicityModel.{f}: exempt - {EXEMPT[f]} (passed on unchanged)")
+            if isinstance(n, ast.Call) and getattr(n, "_module", None) is not None and tree.callee(n) == "sympy.Symbol":
+                out.append(n)
+            todo.extend(ast.iter_child_nodes(n))
+        return out
+
+    mapping_defs = []
+    for d in rd.defs:
+        if d.kind != "assign" or d.value is None or d.index is not None or not isinstance(d.node, (ast.Assign, ast.AnnAssign)):
             continue
-        ps = field_problems[f]
-        ctx.verdict(not ps, "R-FIELDS", key, ev_where, f"HelicityModel.{f} of the renamed model = the original with the symbol map applied ({len(SCENARIOS)} rename maps)",
-                    None if not ps else ps[:4] + ["intensity/amplitudes/components/parameters/kinematic variables must stay mutually consistent (C01) after renaming"])
-    if unknown_fields:
-        ctx.violation("R-FIELDS", f"{fn.qual}::unknown-fields", ev_where, f"the model is rebuilt with unknown fields: {unknown_fields[0]}")
-    ctx.verdict(not assume, "R-ASSUME", f"{fn.qual}::assumptions", where, "the replacement symbol carries the assumptions of the symbol it replaces",
-                None if not assume else assume[:3] + ["assumptions of the renamed symbol are dropped or overridden: the new symbol is a different object than one a user would create with the original assumptions"])
-    ctx.verdict(not newname, "R-ASSUME", f"{fn.qual}::new-name", where, "the new name is the one the map gives for the symbol's name", newname[:3] or None)
-    ctx.verdict(not identity, "R-SIMUL", f"{fn.qual}::identity-for-others", where, "symbols whose name is not in the rename map are mapped to themselves (unrelated symbols untouched)", identity[:3] or None)
-    if sequential:
-        ctx.violation("R-SIMUL", f"{fn.qual}::pairs-applied-sequentially", where, "rename_symbols applies the pairs of the map one after the other", sequential[:3] + ["{a: b, b: c} then renames a to c; a swap {a: b, b: a} merges the two symbols: the map is not applied simultaneously"])
-    cs = cls.methods.get("__collect_symbols")
-    ctx.verdict(not universe, "R-UNIVERSE", f"{MODEL}.__collect_symbols::sources", tree.loc(cs.node) if cs is not None else where,
-                "a symbol is renamed wherever it occurs: expression free symbols | kinematic-variable keys | free symbols of their values | parameter keys", universe[:4] or None)
-    ctx.verdict(not selfmut, "R-PURE", f"{fn.qual}::no-self-mutation", where, "rename_symbols never writes to self (the original model is unchanged)", selfmut[:3] or None)
-    ctx.verdict(not inputmut, "R-PURE", f"{fn.qual}::input-copied", where, "the caller's rename map is copied (dict(renames)) / never mutated", inputmut[:3] or None)
-    ok = empty_ok and not emptymap
-    ctx.verdict(ok, "R-PURE", f"{fn.qual}::empty-map", where, "an empty rename map gives the (frozen, immutable) model itself or an equal model; a map that renames something never does",
-                None if ok else (emptymap[:2] or ["the empty map does not give back an equal model"]))
+        if isinstance(strip(d.value), ast.Name):
+            continue  # an alias of another local: not a definition of its own
+        closed = strip(inl.expr(d.value))
+        if isinstance(closed, ast.DictComp) and symbol_calls(closed.value):
+            mapping_defs.append((d, closed))
+    if len(mapping_defs) != 1:
+        check_sequential_mapping(ctx, tree, fn, rd)
+        raise AnalysisError("rename_symbols: symbol mapping (dict comprehension of sp.Symbol) not found")
+    mapping, comp = mapping_defs[0]
+    for k in [k for k in ev.keywords if k.arg is None]:
+        # **{"intensity": ..., ...} / **dict(intensity=..., ...) / a local (or helper) with such a value
+        packed = strip(inl.expr(k.value, stop={mapping.name}))
+        if isinstance(packed, ast.Dict) and all(isinstance(x, ast.Constant) and isinstance(x.value, str) for x in packed.keys):
+            kws.update({x.value: v for x, v in zip(packed.keys, packed.values)})
+        elif isinstance(packed, ast.Call) and isinstance(packed.func, ast.Name) and packed.func.id == "dict" and not packed.args and all(x.arg for x in packed.keywords):
+            kws.update({x.arg: x.value for x in packed.keywords})
+        else:
+            raise AnalysisError(f"rename_symbols: attrs.evolve(**{unparse(k.value)[:40]}) - the rebuilt fields are not spelled as keywords")
+    sh = Shapes(mapping.name)
+    undecided: list[str] = []
+    for f, ann in fields.items():
+        key = f"{fn.qual}::field {f}"
+        if f in EXEMPT:
+            ctx.ok("R-FIELDS", tree.loc(ev), f"HelicityModel.{f}: exempt - {EXEMPT[f]}")
+            continue
+        if f not in kws:
+            ctx.violation("R-FIELDS", key, tree.loc(ev), f"rename_symbols does not rebuild HelicityModel.{f}: the renamed model keeps the old symbols there",
+                          "intensity/amplitudes/components/parameters/kinematic variables must stay mutually consistent (C01) after renaming")
+            continue
+        val = inl.expr(kws[f], stop={mapping.name})
+        problems, unknown = field_problems(tree, sh, f, is_mapping_annotation(ann), val)
+        if unknown and not problems and isinstance(strip(val), ast.Name):
+            uses_mapping = mapping in rd.closure(rd.uses(kws[f]))
+            problems = residual_loop_problems(fn, rd, strip(val))
+            if not uses_mapping:
+                problems.append("value does not depend on the symbol mapping")
+        if unknown and not problems:
+            undecided += unknown
+            continue
+        ctx.verdict(not problems, "R-FIELDS", key, tree.loc(kws[f]), f"HelicityModel.{f} := {unparse(val)[:70]}", problems or None)
+    extra = set(kws) - set(fields)
+    if extra:
+        ctx.violation("R-FIELDS", f"{fn.qual}::unknown-fields", tree.loc(ev), f"attrs.evolve receives unknown fields {sorted(extra)}")
+
+    # ---- R-ASSUME / untouched symbols: the mapping {s: Symbol(renames[s.name], **s.assumptions0) if s.name in renames else s for s in universe}
+    def is_renames(e: ast.AST) -> bool:
+        e = strip(e)
+        while isinstance(e, ast.Call) and isinstance(e.func, ast.Name) and e.func.id == "dict" and len(e.args) == 1 and not e.keywords:
+            e = strip(e.args[0])
+        return isinstance(e, ast.Name) and e.id == renames
+
+    if len(comp.generators) != 1 or not isinstance(comp.generators[0].target, ast.Name):
+        raise AnalysisError(f"rename_symbols: cannot interpret the iteration of the symbol mapping `{unparse(comp)[:80]}`")
+    gen = comp.generators[0]
+    s = gen.target
+
+    def is_s(e: ast.AST) -> bool:
+        return same(e, s)
+
+    def is_name_of_s(e: ast.AST) -> bool:
+        e = strip(e)
+        return isinstance(e, ast.Attribute) and e.attr == "name" and is_s(e.value)
+
+    value = strip(comp.value)
+    renamed_branch, identity_ok = value, False
+    if isinstance(value, ast.IfExp):
+        test, positive = normal_test(value.test, True)
+        hit, miss = (value.body, value.orelse) if positive else (value.orelse, value.body)
+        in_map = isinstance(test, ast.Compare) and len(test.ops) == 1 and isinstance(test.ops[0], ast.In) and is_name_of_s(test.left) and is_renames(test.comparators[0])
+        identity_ok = in_map and is_s(miss) and is_s(comp.key)
+        renamed_branch = strip(hit)
+    sym_calls = symbol_calls(renamed_branch)
+    if not sym_calls:
+        raise AnalysisError("rename_symbols: the symbol mapping creates no sp.Symbol on the renamed branch")
+    c0 = sym_calls[0]
+    star = [k for k in c0.keywords if k.arg is None]
+    ok = (len(star) == 1 and isinstance(strip(star[0].value), ast.Attribute) and strip(star[0].value).attr == "assumptions0" and is_s(strip(star[0].value).value)
+          and not [k for k in c0.keywords if k.arg not in {None, "name"}])
+    ctx.verdict(ok, "R-ASSUME", f"{fn.qual}::assumptions", tree.loc(c0), f"replacement symbol: `{unparse(c0)[:70]}` carries **{s.id}.assumptions0",
+                None if ok else "assumptions of the renamed symbol are dropped or overridden: the new symbol is a different object than one a user would create with the original assumptions")
+    a0 = strip(c0.args[0]) if c0.args else next((strip(k.value) for k in c0.keywords if k.arg == "name"), None)
+    ok = a0 is not None and (
+        (isinstance(a0, ast.Subscript) and is_renames(a0.value) and is_name_of_s(a0.slice))
+        or (isinstance(a0, ast.Call) and isinstance(a0.func, ast.Attribute) and a0.func.attr == "get" and is_renames(a0.func.value) and len(a0.args) == 1 and not a0.keywords and is_name_of_s(a0.args[0])))
+    ctx.verdict(ok, "R-ASSUME", f"{fn.qual}::new-name", tree.loc(c0), f"the new name is {renames}[{s.id}.name]", None if ok else (unparse(a0) if a0 is not None else "no name"))
+    ctx.verdict(identity_ok, "R-SIMUL", f"{fn.qual}::identity-for-others", tree.loc(comp), "symbols whose name is not in the rename map are mapped to themselves (unrelated symbols untouched)",
+                None if identity_ok else unparse(comp)[:120])
+
+    # ---- R-UNIVERSE: what the mapping ranges over
+    uni = Universe(tree, leaves=set(fields))
+    domain = uni.ev(gen.iter, {"self": ("self",)})
+    ranges_over_collection = domain[0] == "set"
+    if not ranges_over_collection:
+        undecided.append(f"symbol universe: cannot interpret `{unparse(gen.iter)[:80]}`" + (f" ({'; '.join(uni.events[:3])})" if uni.events else ""))
+    ctx.verdict(not gen.ifs, "R-UNIVERSE", f"{fn.qual}::mapping-over-universe", tree.loc(comp), "the symbol mapping ranges over the whole symbol universe of the model",
+                None if not gen.ifs else f"the universe is filtered: `if {unparse(gen.ifs[0])[:60]}`")
+    if ranges_over_collection:
+        missing = [k for k, src in REQUIRED_SOURCES.items() if src not in domain[1]]
+        if missing and uni.events:
+            undecided.append(f"symbol universe: {missing} not found, but the analysis could not interpret everything ({'; '.join(uni.events[:3])})")
+        else:
+            cs = cls.methods.get("__collect_symbols")
+            ctx.verdict(not missing, "R-UNIVERSE", f"{MODEL}.__collect_symbols::sources", tree.loc(cs.node if cs is not None else comp),
+                        "__collect_symbols = expression.free_symbols | kinematic-variable keys | free symbols of their values | parameter keys", missing or None)
+
+    # ---- R-PURE
+    bad = []
+    family = helpers_of(tree, fn)
+    for g in family:
+        for node in walk_function(g.node, nested=False):
+            if isinstance(node, (ast.Assign, ast.AugAssign, ast.AnnAssign)):
+                tgts = node.targets if isinstance(node, ast.Assign) else [node.target]
+                for t in tgts:
+                    if isinstance(t, (ast.Attribute, ast.Subscript)) and unparse(t).startswith("self"):
+                        bad.append(node)
+            if isinstance(node, ast.Call) and isinstance(node.func, ast.Attribute) and node.func.attr in MUTATORS and unparse(node.func.value).startswith("self"):
+                bad.append(node)
+    ctx.verdict(not bad, "R-PURE", f"{fn.qual}::no-self-mutation", tree.loc(fn.node), "rename_symbols never writes to self (the original model is unchanged)", [unparse(b)[:60] for b in bad] or None)
+    copies = [d for d in rd.defs if d.name == renames and d.value is not None and isinstance(d.value, ast.Call) and isinstance(d.value.func, ast.Name) and d.value.func.id in {"dict", "OrderedDict"}
+              and len(d.value.args) == 1 and isinstance(d.value.args[0], ast.Name) and d.value.args[0].id == renames]
+    mut_input = [n for n in walk_function(fn.node) if isinstance(n, ast.Call) and isinstance(n.func, ast.Attribute) and n.func.attr in MUTATORS and unparse(n.func.value) == renames]
+    mut_input += [n for n in walk_function(fn.node) if isinstance(n, (ast.Assign, ast.AugAssign, ast.Delete)) and any(
+        isinstance(t, ast.Subscript) and isinstance(t.value, ast.Name) and t.value.id == renames for t in (n.targets if not isinstance(n, ast.AugAssign) else [n.target]))]
+    ctx.verdict(bool(copies) or not mut_input, "R-PURE", f"{fn.qual}::input-copied", tree.loc(fn.node), "the caller's rename map is copied (dict(renames)) / never mutated")
+    # early exit returns self for the empty map: every path that returns the model itself has established that the map is empty
+    self_returns = 0
+    unguarded = []
+    for p in PathWalker(tree).paths(fn):
+        if p.exit != "return" or p.exit_node is None or p.exit_node.value is None:
+            continue
+        if unparse(strip(inl.expr(p.exit_node.value))) != "self":
+            continue
+        for alt in atomic_tests(p.events):
+            facts = {emptiness_fact(inl.expr(e[1]), e[2], is_renames) for e in alt if e[0] == "test"}
+            if "empty" in facts and "nonempty" not in facts:
+                self_returns += 1
+            else:
+                unguarded.append(" and ".join(f"{'' if e[2] else 'not '}({unparse(e[1])[:40]})" for e in alt if e[0] == "test") or "always")
+    ok = self_returns >= 1 and not unguarded
+    ctx.verdict(ok, "R-PURE", f"{fn.qual}::empty-map", tree.loc(fn.node), "an empty rename map returns the (frozen, immutable) model itself",
+                None if ok else (f"`return self` also when {unguarded[:2]}" if unguarded else "no early return of the model itself for the empty map"))
     frozen = any(d[0] in {"attrs.frozen", "attr.frozen"} or "frozen" in unparse(d[1]) for d in cls.decorators)
     ctx.verdict(frozen, "R-PURE", f"{MODEL}::frozen", tree.loc(cls.node), "HelicityModel is an attrs-frozen class")
-
-
-def _occurs(world: ModelWorld, v, s) -> bool:
-    items = world.as_mapping(v) if not isinstance(v, MObj) or (isinstance(v, Instance) and v.cls is not None) else None
-    parts = [v] if items is None else [*items.keys(), *items.values()]
-    return any(isinstance(p, MObj) and s in world.w.subtree(p) for p in parts)
+    if undecided:
+        raise AnalysisError("; ".join(undecided))
